@@ -36,6 +36,7 @@ class D(Driver):
         b = w.opts["resolver"]
         if vl == vr:
             return {"calls": 0, "path": p, "content": vl, "artefact": None}
+        b = {"local_drop_read": "local_drop", "remote_drop_read": "remote_drop", "merged_drop_written": "merged_drop"}.get(b, b)
         if b in ("local_keep", "local_drop"):
             return {"calls": 1, "path": p, "content": vl, "artefact": vr if b.endswith("keep") else None}
         if b in ("remote_keep", "remote_drop"):
